@@ -494,7 +494,10 @@ func (e *kvElection) attemptPriorityTakeover(payloadBytes []byte) error {
 	return nil
 }
 
-func (e *kvElection) becomeFollower() {
+// becomeFollower clears the claim and moves to FOLLOWER. It reports whether
+// this call actually ended a leadership term, so that callers invoke OnDemote
+// exactly once per term however many mechanisms notice the same loss.
+func (e *kvElection) becomeFollower() bool {
 	e.mu.Lock()
 	defer e.mu.Unlock()
 
@@ -534,6 +537,26 @@ func (e *kvElection) becomeFollower() {
 			defer e.wg.Done()
 			e.watchLoop(e.ctx)
 		}()
+	}
+
+	return wasLeader
+}
+
+// notifyDemoted runs the OnDemote callback after becomeFollower reported that
+// a leadership term has ended.
+func (e *kvElection) notifyDemoted(reason string) {
+	e.mu.RLock()
+	onDemote := e.onDemote
+	e.mu.RUnlock()
+
+	if onDemote != nil {
+		log := e.getLogger()
+		log.Info("leader_demoted",
+			append(e.logWithContext(e.ctx),
+				zap.String("reason", reason),
+			)...,
+		)
+		onDemote()
 	}
 }
 
